@@ -1217,5 +1217,6 @@ public:
 
 	void Sync(NiStreamReversible& stream);
 	void GetStringRefs(std::vector<NiStringRef*>& refs) override;
+	void GetPtrs(std::set<NiPtr*>& ptrs) override;
 };
 } // namespace nifly
